@@ -13,6 +13,7 @@ namespace sg4 = simgrid::s4u;
 int main(int argc, char** argv)
 {
   sg4::Engine e(&argc, argv);
+  setvbuf(stdout, nullptr, _IOLBF, 0); // the log must survive an abort
   sg_storage_file_system_init();
   e.load_platform(argv[1]);
   std::vector<std::string> script;
